@@ -639,3 +639,29 @@ Lemma swap_jitter0_in_force_delay_exact old p gate d sign :
 Proof.
   intros Hj. unfold delay_with. rewrite Hj. apply (jitter_zero_exact_gen impl_le0). left. reflexivity.
 Qed.
+
+(* ------------------------------------------------------------------ the sleep ticker *)
+(* with the drain, whatever happened to the ticker before (a tick pending from a long contact or
+   not), wait() does not return before now + w *)
+Lemma wait_drain_full_delay t now w : 0 <= w -> now + w <= wait_wakes true t now w.
+Proof.
+  intros Hw. unfold wait_wakes, tick_recv, tick_reset, tick_drain. cbn [t_pending t_next]. lia.
+Qed.
+
+Lemma wait_drain_exact t now w : 0 <= w -> wait_wakes true t now w = now + w.
+Proof.
+  intros Hw. unfold wait_wakes, tick_recv, tick_reset, tick_drain. cbn [t_pending t_next]. lia.
+Qed.
+
+(* without the drain a tick that fired during a contact longer than the period survives Reset
+   and wait() returns at once *)
+Lemma wait_no_drain_stale t now w :
+  0 < t_period t -> t_next t <= now -> wait_wakes false t now w = now.
+Proof.
+  intros Hp Hn. unfold wait_wakes, tick_advance. replace (t_next t <=? now) with true by lia.
+  unfold tick_recv, tick_reset. cbn [t_pending]. reflexivity.
+Qed.
+
+Lemma wait_no_drain_refuted :
+  exists t now w, 0 < w /\ t_pending t = false /\ wait_wakes false t now w < now + w.
+Proof. exists (mkT false 80 80), 320, 80. vm_compute. repeat split; reflexivity. Qed.
